@@ -2,3 +2,15 @@ CLAIMED["C18"] = dict(
     text="Every Put/FromBytes pair under contract is proved, for all field values and all byte strings, to write/read exactly the ABI offsets and lengths (postconditions over little-/big-endian byte expressions), to reject short buffers, and to leave bytes outside the record untouched; all index/slice/nil obligations of those functions are discharged.",
     note="binary.ByteOrder accessors are modelled by their arithmetic definition; copy() of constant length is unrolled. See evidence trusted_base for havocked calls.",
 )
+CLAIMED["C01"] = dict(
+    text="Postcondition chain: every accepting return of verify.CheckCertificate / EndorsementProto / Endorsement / the SNP validator closure implies authentic(payload, signature, caller roots, caller time) — chain check of the embedded certificate against the caller's pool at the caller's time and RSA-PSS/SHA-256 signature over exactly the stored payload bytes — proved for all inputs from the real SSA, with crypto/x509 represented by assumed contracts.",
+    note="Assumed: crypto/x509 ParseCertificate/Verify/CheckSignature contracts (/verif/stubs/x509.spec), protobuf Unmarshal model (deterministic decode), HTTPSGetter. The RSA/X.509 mathematics is not verified.",
+)
+CLAIMED["C02"] = dict(
+    text="verify.SNP is proved to accept only when the supplied measurement is byte-equal to the endorsed measurement for the named VMSA count (or to some listed measurement when none is named); EndorsementProto's digest comparison and the closure's 48-byte gate and use of this report's measurement are postconditions proved for all inputs.",
+    note="bytes.Equal is modelled as equality of abstract content values; protobuf decoding is an uninterpreted deterministic function of the bytes.",
+)
+CLAIMED["C09"] = dict(
+    text="Frame conditions: the validator constructor, the validator closure and everything they call (EndorsementProto, Endorsement, SNP, CheckCertificate) are proved to write only memory allocated during the call (every store and every callee's assigns set is checked against the entry watermark), so concurrent or successive invocations share only read-only state; data-race freedom then gives each call its isolated result.",
+    note="The step from 'no shared writes' to 'same result under every interleaving' is a meta-argument (DRF => SC), not machine-checked. Library objects (CertPool, Getter, protobuf runtime) are assumed safe for concurrent use.",
+)
